@@ -170,3 +170,67 @@ M("C20-benign-early-return", "C20", "src/interrogatedb/interrogateDatabase.cxx",
 M("C20-benign-size-guard-form", "C20", "src/interrogatedb/interrogateDatabase.cxx",
   "  if (unique_name.size() < 4) {\n    return 0;\n  }\n", "  if (!(unique_name.length() >= 4)) {\n    return 0;\n  }\n",
   benign=True)
+
+# ---------------------------------------------------------------- C13
+M("C13-no-check-latest", "C13", "src/interrogatedb/interrogateDatabase.cxx",
+  "get_all_type(int n) {\n  check_latest();\n", "get_all_type(int n) {\n",
+  expect="R13.1|InterrogateDatabase::get_all_type")
+M("C13-check-latest-after-find", "C13", "src/interrogatedb/interrogateDatabase.cxx",
+  "  static InterrogateElement bogus_element;\n\n  check_latest();\n  ElementMap::const_iterator ei;\n  ei = _element_map.find(element);",
+  "  static InterrogateElement bogus_element;\n\n  ElementMap::const_iterator ei;\n  ei = _element_map.find(element);\n  check_latest();",
+  expect="R13.1|InterrogateDatabase::get_element")
+M("C13-no-cache-reset", "C13", "src/interrogatedb/interrogateDatabase.cxx",
+  "    update_make_seq(other_make_seq_index).remap_indices(remap);\n  }\n\n  _lookups_fresh = 0;", "    update_make_seq(other_make_seq_index).remap_indices(remap);\n  }\n",
+  expect="R13.2|merge_from|reset-after-last-mutation")
+M("C13-wrong-bit", "C13", "src/interrogatedb/interrogateDatabase.I",
+  "  return lookup(name, _types_by_scoped_name, LT_type_scoped_name,", "  return lookup(name, _types_by_scoped_name, LT_type_name,",
+  expect="R13.2|lookup_type_by_scoped_name|table-bit-freshen")
+M("C13-freshen-wrong-key", "C13", "src/interrogatedb/interrogateDatabase.cxx",
+  "    _types_by_true_name[(*ti).second.get_true_name()] = (*ti).first;", "    _types_by_true_name[(*ti).second.get_scoped_name()] = (*ti).first;",
+  expect="R13.2|freshen_types_by_true_name")
+M("C13-manifest-not-renumbered", "C13", "src/interrogatedb/interrogateDatabase.cxx",
+  "    update_manifest(other_manifest_index).remap_indices(remap);\n", "",
+  expect="R13.3|merge_from|_manifest_map|renumbered")
+M("C13-merge-before-remap", "C13", "src/interrogatedb/interrogateDatabase.cxx",
+  "      merge_type.remap_indices(remap);\n      this_type.merge_with(merge_type);", "      this_type.merge_with(merge_type);\n      merge_type.remap_indices(remap);",
+  expect="R13.3|merge_from|shared-type|renumbered-before-merge_with")
+M("C13-range-not-advanced", "C13", "src/interrogatedb/interrogateDatabase.cxx",
+  "    _next_index += num_indices;", "    _next_index += 1;",
+  expect="R13.4|request_module|advance")
+M("C13-refresh-sets-no-bit", "C13", "src/interrogatedb/interrogateDatabase.cxx",
+  "    (this->*freshen)();\n    _lookups_fresh |= (int)type;", "    (this->*freshen)();",
+  expect="R13.2|lookup|refresh-iff-stale")
+M("C13-benign-rename-local", "C13", "src/interrogatedb/interrogateDatabase.cxx",
+  "  int num_indices = def->next_index - def->first_index;\n  if (num_indices > 0) {", "  int count = def->next_index - def->first_index;\n  int num_indices = count;\n  if (count > 0) {",
+  benign=True, allow_broken=False)
+M("C13-benign-reorder-loops", "C13", "src/interrogatedb/interrogateDatabase.cxx",
+  "  _lookups_fresh = 0;\n}\n\n/**\n * Looks up the wrapper definition", "  _lookups_fresh = 0;\n  return;\n}\n\n/**\n * Looks up the wrapper definition",
+  benign=True)
+
+# ---------------------------------------------------------------- C19
+M("C19-drop-fail-test", "C19", "src/interrogate/interrogate.cxx",
+  "      output_data.close();\n      if (output_data.fail()) {\n        nout << \"Error writing \" << output_data_filename << \"\\n\";\n        status = -1;\n      }\n",
+  "      output_data.close();\n",
+  expect="R19.o2|interrogate.cxx::main|output_data")
+M("C19-test-before-close", "C19", "src/interrogate/interrogate.cxx",
+  "      output_text.close();\n      if (output_text.fail()) {", "      if (output_text.fail()) {",
+  expect="R19.o2|interrogate.cxx::main|output_text")
+M("C19-status-reset", "C19", "src/interrogate/interrogate.cxx",
+  "  if (!output_text_filename.empty()) {\n    std::ofstream output_text;", "  status = 0;\n  if (!output_text_filename.empty()) {\n    std::ofstream output_text;",
+  expect="R19.o3|interrogate.cxx::main")
+M("C19-module-open-unreported", "C19", "src/interrogate/interrogate_module.cxx",
+  "      nout << \"Unable to write to \" << output_code_filename << \"\\n\";\n      status = 1;", "      nout << \"Unable to write to \" << output_code_filename << \"\\n\";",
+  expect="R19.o3|interrogate_module.cxx::main|output_code|failure-edge")
+M("C19-module-return-zero", "C19", "src/interrogate/interrogate_module.cxx",
+  "  return status;\n}", "  return (status, 0);\n}",
+  expect="R19.o3|interrogate_module.cxx::main")
+M("C19-write-after-check", "C19", "src/interrogate/interrogate.cxx",
+  "        nout << \"Error writing \" << output_code_filename << \"\\n\";\n        status = -1;\n      }\n",
+  "        nout << \"Error writing \" << output_code_filename << \"\\n\";\n        status = -1;\n      }\n      output_code << \"\\n\";\n",
+  expect="R19.o2|interrogate.cxx::main|output_code")
+M("C19-benign-not-operator", "C19", "src/interrogate/interrogate.cxx",
+  "      output_data.close();\n      if (output_data.fail()) {", "      output_data.flush();\n      if (!output_data) {",
+  benign=True)
+M("C19-benign-exit-call", "C19", "src/interrogate/interrogate_module.cxx",
+  "      nout << \"Unable to write to \" << output_code_filename << \"\\n\";\n      status = 1;", "      nout << \"Unable to write to \" << output_code_filename << \"\\n\";\n      exit(1);",
+  benign=True)
